@@ -547,7 +547,7 @@ class Evaluator:
     def __init__(self, inputs, fns=None):
         """inputs: dict name -> int (value of the named input vector); fns: name -> python fn."""
         self.inputs = inputs
-        self.fns = fns or {}
+        self.fns = fns if fns is not None else {}
         self.memo = {}
         self.summemo = {}
 
@@ -765,4 +765,56 @@ def first_diff(a, b):
     for i, (x, y) in enumerate(zip(a, b)):
         if x != y:
             return i
+    return None
+
+
+# ---------------------------------------------------------------- witnesses for differing normal forms
+import hashlib
+import random
+
+
+def _prf(name, args, width_hint=128):
+    h = hashlib.sha256(repr((name, args)).encode()).digest()
+    return int.from_bytes(h, "little")
+
+
+class _PrfFns(dict):
+    """Every uninterpreted function is interpreted as a fixed pseudo-random function of its arguments."""
+
+    def __missing__(self, name):
+        def f(*args):
+            return _prf(name, args)
+        self[name] = f
+        return f
+
+
+def find_witness(a, b, trials=12, seed=0):
+    """Search an assignment of the inputs on which the two graphs evaluate differently.
+    Returns dict(inputs, index, got, expected) or None.  (Graphs only; never repository code.)"""
+    if len(a) != len(b):
+        return {"inputs": {}, "index": -1, "got": len(a), "expected": len(b)}
+    sup = support(tuple(a)) | support(tuple(b))
+    widths = {}
+    for n, i in sup:
+        widths[n] = max(widths.get(n, 0), i + 1)
+    rnd = random.Random(seed)
+    cases = []
+    cases.append({n: 0 for n in widths})
+    cases.append({n: (1 << w) - 1 for n, w in widths.items()})
+    for _ in range(trials):
+        cases.append({n: rnd.getrandbits(w) for n, w in widths.items()})
+    for _ in range(4):
+        # sparse / boundary style values
+        cases.append({n: rnd.choice([0, 1, (1 << w) - 1, 1 << (w - 1), rnd.getrandbits(w)]) for n, w in widths.items()})
+    for env in cases:
+        try:
+            ev = Evaluator(env, _PrfFns())
+            for i, (x, y) in enumerate(zip(a, b)):
+                if x == y:
+                    continue
+                if ev.bit(x) != ev.bit(y):
+                    return {"inputs": {k: hex(v) for k, v in sorted(env.items()) if not k.startswith("cpu.") or True},
+                            "index": i, "got": ev.bit(x), "expected": ev.bit(y)}
+        except (ValueError, KeyError, RecursionError):
+            return None
     return None
